@@ -459,7 +459,7 @@ func (w *nlWorld) read(side, c, k, sz int, expTimeout bool) nlObs {
 	}
 	if nlIsTimeout(err) {
 		w.cnt["read_timeouts"]++
-		if useDeadline && (el < dl-2*time.Millisecond || el > dl+1500*time.Millisecond) {
+		if useDeadline && (el < dl-2*time.Millisecond || el > dl+3*time.Second) {
 			w.ledgerBad = fmt.Sprintf("read deadline of %v: Read returned the timeout error after %v", dl, el)
 		}
 		return nlObs{res: "timeout", rn: []int{0}, note: err.Error()}
@@ -654,14 +654,36 @@ func nlStreamState(s *Stream) int {
 	}
 }
 
+// nlPending: bytes received for the stream and still parked in pendingData (not yet moved into recvBuf). The lock is
+// held while the shared memory chain is walked: Stream.clean() needs the same lock before the session may unmap.
 func nlPending(s *Stream) int {
 	s.pendingData.Lock()
-	n := len(s.pendingData.unread)
-	s.pendingData.Unlock()
-	if n > 0 {
-		return 1
+	defer s.pendingData.Unlock()
+	n := 0
+	for _, w := range s.pendingData.unread {
+		if w.fallbackSlice != nil {
+			n += w.fallbackSlice.size()
+			continue
+		}
+		bm := s.session.bufferManager
+		if bm == nil {
+			return -1000000
+		}
+		for off, hops := w.offset, 0; hops < 100000; hops++ {
+			sl, err := bm.readBufferSlice(off)
+			if err != nil {
+				return -1000000
+			}
+			n += sl.size()
+			more := sl.hasNext()
+			off = sl.nextBufferOffset()
+			putBackBufferSlice(sl)
+			if !more {
+				break
+			}
+		}
 	}
-	return 0
+	return n
 }
 
 // project reads the structural projection off the real objects (same layout as project() in checks/netlistener.py)
@@ -728,10 +750,10 @@ func (w *nlWorld) project() []int {
 				held = 1
 				wcl = int(atomic.LoadUint32(&st.sw.closed))
 			}
-			if cb%w.unit != 0 || sb%w.unit != 0 {
-				cb, sb = -(1000 + cb), -(1000 + sb)
+			if cb%w.unit != 0 || sb%w.unit != 0 || cp%w.unit != 0 || sp%w.unit != 0 {
+				cb, sb, cp, sp = -(1000 + cb), -(1000 + sb), -(1000 + cp), -(1000 + sp)
 			} else {
-				cb, sb = cb/w.unit, sb/w.unit
+				cb, sb, cp, sp = cb/w.unit, sb/w.unit, cp/w.unit, sp/w.unit
 			}
 			v = append(v, cst, sst, held, wcl, sp, sb, cp, cb)
 		}
@@ -947,6 +969,22 @@ func (w *nlWorld) exec(op string, a []int, cands []nlCand) (nlObs, []string) {
 		got = w.lclose()
 	case "sessclose":
 		got = w.sessclose(a[0])
+	case "await_session_end":
+		// hand-written paths only: wait (up to 8s) until both ends of session a[0] are closed and torn down
+		got = nlObs{res: "timeout"}
+		ss := w.sess[a[0]-1]
+		for dl := time.Now().Add(8 * time.Second); time.Now().Before(dl); time.Sleep(time.Millisecond) {
+			if ss.srv != nil && ss.srv.IsClosed() && ss.cl != nil && ss.cl.IsClosed() {
+				ss.srv.streamLock.Lock()
+				gone := ss.srv.streams == nil
+				ss.srv.streamLock.Unlock()
+				if gone {
+					got = nlObs{res: "ok"}
+					break
+				}
+			}
+		}
+		time.Sleep(20 * time.Millisecond)
 	case "race_write_sclose":
 		// staged interleaving (found by TLC with Sync = FALSE): the client's Write is still on its way when the server
 		// closes the conn - no settle between the two calls
